@@ -43,6 +43,19 @@ type wssIn struct {
 	Addr     string   `json:"addr"`            // scheme of the configured address: "wss" | "ws"
 	Chain    []string `json:"chain,omitempty"` // scheme of the Location of each redirect answer in turn: "https" | "http"
 	Code     int      `json:"code,omitempty"`  // status of the redirect answers (301 302 307 308)
+	// TLSConf: TransportConfiguration.TLSConfig of the application: "" none (the process' default HTTP transport, which
+	// trusts the test CA: "the machine trusts the issuer") | "roots" RootCAs = the test CA | "otherroots" RootCAs = a pool
+	// that does NOT hold the issuer (the application trusts its own CA only) | "skip" InsecureSkipVerify.
+	// Cert: what the https endpoint presents: "" issued by the test CA for the endpoint's address | "untrusted" the same
+	// from a CA nobody trusts | "wrongname" issued by the test CA for another name.
+	TLSConf string `json:"tlsconf,omitempty"`
+	Cert    string `json:"cert,omitempty"`
+}
+
+// certAcceptable: the harness's own reading of "the certificate validates under the application's configuration".
+func (w wssIn) certTrusted() bool { return w.Cert != "untrusted" && w.TLSConf != "otherroots" }
+func (w wssIn) certAcceptable() bool {
+	return w.TLSConf == "skip" || (w.certTrusted() && w.Cert != "wrongname")
 }
 
 type c04Prop struct{ s sessProp }
@@ -224,7 +237,14 @@ func (p c04Prop) InputObs(in interface{}, obs Sx) Sx {
 		for _, s := range w.Chain {
 			ch = append(ch, B(s != "https")) // 0 https, 1 http
 		}
-		return L(Z(1), B(w.Insecure), B(w.Addr != "wss"), LS(ch))
+		// the TLS configuration and the abstract facts about the certificate: the MODEL decides the handshake
+		// (TlsPolicy.handshake_ok with the host of the URL in the place of the domain); ServerName is never set here
+		name := "url-host"
+		if w.Cert == "wrongname" {
+			name = "other.example"
+		}
+		return L(Z(1), B(w.Insecure), B(w.Addr != "wss"), LS(ch),
+			L(B(w.TLSConf == "skip"), SBytes(""), SBytes("url-host"), B(w.certTrusted()), L(SBytes(name))))
 	}
 	var plans []Sx
 	for _, sc := range c.Sess.Conns {
@@ -361,7 +381,7 @@ func (p c04Prop) Key(in interface{}) (string, bool) {
 	c := in.(c04Case)
 	if c.Wss != nil {
 		hist("tag:wss")
-		return fmt.Sprintf("W%v %s %v %d", c.Wss.Insecure, c.Wss.Addr, c.Wss.Chain, c.Wss.Code), len(c.Wss.Chain) > 0
+		return fmt.Sprintf("W%v %s %v %d %s %s", c.Wss.Insecure, c.Wss.Addr, c.Wss.Chain, c.Wss.Code, c.Wss.TLSConf, c.Wss.Cert), len(c.Wss.Chain) > 0 || c.Wss.TLSConf != ""
 	}
 	k, nt := p.s.Key(*c.Sess)
 	var b strings.Builder
@@ -494,8 +514,9 @@ func genC04Resend(r *rand.Rand, tier string) []sessIn {
 					att.Groups = g
 					conns := []sessConn{first, att}
 					if !insecure && r.Intn(2) == 0 { // (with Insecure the failed attempt keeps the old session: the next connection would try to resume it)
-						g3, _ := goodConn(in, shape{tlsOffer: 1, smOffer: true}, "", "", "smq3-"+fmt.Sprint(r.Intn(1000)), "true")
-						conns = append(conns, sessConn{Groups: g3, Cert: "valid", SendAfter: 2, AckAfter: []int{r.Intn(2)}, AckVia: "direct"})
+						// (a stream without stream management: whether or not the failed attempt kept the old session, nothing is resumed here)
+						g3, _ := goodConn(in, shape{tlsOffer: 1, smOffer: false}, "", "", "", "")
+						conns = append(conns, sessConn{Groups: g3, Cert: "valid", SendAfter: 2})
 					}
 					in.Conns = conns
 					out = append(out, in)
@@ -596,6 +617,20 @@ func genC04Wss(r *rand.Rand, tier string) []wssIn {
 			}
 		}
 	}
+	// the application's TLS configuration x what the https endpoint presents (wss://, with and without a redirect to https)
+	for _, conf := range []string{"", "roots", "otherroots", "skip"} {
+		for _, cert := range []string{"", "untrusted", "wrongname"} {
+			for _, ch := range [][]string{nil, {"https"}} {
+				if conf == "" && cert == "" {
+					continue // above
+				}
+				if len(ch) > 0 && tier != "thorough" && r.Intn(2) == 0 {
+					continue
+				}
+				out = append(out, wssIn{Insecure: r.Intn(4) == 0, Addr: "wss", Chain: ch, Code: codes[r.Intn(len(codes))], TLSConf: conf, Cert: cert})
+			}
+		}
+	}
 	if tier == "thorough" {
 		for k := 0; k < 60; k++ {
 			n := r.Intn(5)
@@ -614,6 +649,9 @@ var (
 	wssCA     *x509.Certificate
 	wssCAKey  *ecdsa.PrivateKey
 	wssCAPool *x509.CertPool
+	// a CA nobody trusts
+	wssBadCA    *x509.Certificate
+	wssBadCAKey *ecdsa.PrivateKey
 )
 
 // wssInit: a CA of its own for the HTTPS endpoints. The WebSocket transport dials through net/http's default
@@ -633,19 +671,38 @@ func wssInit() {
 		wssCA, _ = x509.ParseCertificate(der)
 		wssCAPool = x509.NewCertPool()
 		wssCAPool.AddCert(wssCA)
+		wssBadCAKey, _ = ecdsa.GenerateKey(elliptic.P256(), crand.Reader)
+		tpl2 := &x509.Certificate{SerialNumber: big.NewInt(2), Subject: pkix.Name{CommonName: "xv wss other CA"},
+			NotBefore: now.Add(-time.Hour), NotAfter: now.Add(24 * time.Hour), IsCA: true, BasicConstraintsValid: true,
+			KeyUsage: x509.KeyUsageCertSign | x509.KeyUsageDigitalSignature}
+		der2, err := x509.CreateCertificate(crand.Reader, tpl2, tpl2, &wssBadCAKey.PublicKey, wssBadCAKey)
+		if err != nil {
+			panic(err)
+		}
+		wssBadCA, _ = x509.ParseCertificate(der2)
 		if dt, ok := http.DefaultTransport.(*http.Transport); ok {
 			dt.TLSClientConfig = &tls.Config{RootCAs: wssCAPool}
 		}
 	})
 }
 
-func wssLeaf(ip net.IP) tls.Certificate {
+// wssLeaf: a certificate of the test CA for the endpoint's address (also used by c03ws.go)
+func wssLeaf(ip net.IP) tls.Certificate { return wssLeafKind(ip, "") }
+
+func wssLeafKind(ip net.IP, kind string) tls.Certificate {
 	key, _ := ecdsa.GenerateKey(elliptic.P256(), crand.Reader)
 	now := time.Now()
 	tpl := &x509.Certificate{SerialNumber: big.NewInt(time.Now().UnixNano()), Subject: pkix.Name{CommonName: "xv wss endpoint"},
 		IPAddresses: []net.IP{ip}, NotBefore: now.Add(-time.Hour), NotAfter: now.Add(24 * time.Hour),
 		KeyUsage: x509.KeyUsageDigitalSignature, ExtKeyUsage: []x509.ExtKeyUsage{x509.ExtKeyUsageServerAuth}}
-	der, err := x509.CreateCertificate(crand.Reader, tpl, wssCA, &key.PublicKey, wssCAKey)
+	ca, caKey := wssCA, wssCAKey
+	switch kind {
+	case "wrongname":
+		tpl.IPAddresses, tpl.DNSNames = nil, []string{"other.example"}
+	case "untrusted":
+		ca, caKey = wssBadCA, wssBadCAKey
+	}
+	der, err := x509.CreateCertificate(crand.Reader, tpl, ca, &key.PublicKey, caKey)
 	if err != nil {
 		panic(err)
 	}
@@ -744,7 +801,7 @@ func runWss(in wssIn) Sx {
 	})
 	host, _, _ := net.SplitHostPort(tlsL.Addr().String())
 	tlsSrv := &http.Server{Handler: handler,
-		TLSConfig:    &tls.Config{Certificates: []tls.Certificate{wssLeaf(net.ParseIP(host))}, NextProtos: []string{"http/1.1"}},
+		TLSConfig:    &tls.Config{Certificates: []tls.Certificate{wssLeafKind(net.ParseIP(host), in.Cert)}, NextProtos: []string{"http/1.1"}},
 		TLSNextProto: map[string]func(*http.Server, *tls.Conn, http.Handler){}, // HTTP/1.1 only
 		ErrorLog:     quietLog}
 	plainSrv := &http.Server{Handler: handler, ErrorLog: quietLog}
@@ -760,6 +817,15 @@ func runWss(in wssIn) Sx {
 	cfg := &xmpp.Config{
 		TransportConfiguration: xmpp.TransportConfiguration{Address: addr, Domain: srvDomain, ConnectTimeout: 10},
 		Jid:                    "user@" + srvDomain, Credential: xmpp.Password("secret"), Insecure: in.Insecure, ConnectTimeout: 10,
+	}
+	switch in.TLSConf {
+	case "roots":
+		cfg.TLSConfig = &tls.Config{RootCAs: wssCAPool}
+	case "otherroots":
+		initCerts()
+		cfg.TLSConfig = &tls.Config{RootCAs: caPool} // the CA of the TCP scenarios: not the issuer of this endpoint's certificate
+	case "skip":
+		cfg.TLSConfig = &tls.Config{InsecureSkipVerify: true}
 	}
 	client, err := xmpp.NewClient(cfg, xmpp.NewRouter(), func(error) {})
 	if err != nil {
@@ -798,6 +864,12 @@ func oracleWss(in wssIn, obs Sx) (string, string) {
 	seen := obs.L[0]
 	if seen.L[0].Z == 2 && seen.L[1].Z == 0 && !in.Insecure {
 		return fmt.Sprintf("address %s://, Insecure=false, redirects %v: the SASL credentials (<auth/>) were received by an endpoint on a plain TCP connection", in.Addr, in.Chain), "ws-auth-in-clear"
+	}
+	if seen.L[0].Z == 2 && !in.Insecure && in.Addr != "wss" {
+		return fmt.Sprintf("address ws://, Insecure=false, redirects %v: the SASL credentials (<auth/>) were written although the configured address is not a secure one (the redirect to https arrived in clear text: whoever sent it chose the host the certificate was checked against)", in.Chain), "ws-redirected-auth"
+	}
+	if seen.L[0].Z == 2 && seen.L[1].Z == 1 && !in.certAcceptable() {
+		return fmt.Sprintf("address %s://, TLS configuration %q, certificate %q: the SASL credentials (<auth/>) were written over TLS although the certificate does not validate under the application's TLS configuration", in.Addr, in.TLSConf, in.Cert), "ws-auth-unverified-tls"
 	}
 	if obs.L[1].Z == 1 && seen.L[0].Z != 2 {
 		return "Connect succeeded although no endpoint received the authentication", "ws-ok-without-auth"
